@@ -1,6 +1,7 @@
 SPECIFICATION GenSpec
 CONSTANTS AggReplace = FALSE
  AggKeepFirst = FALSE
+ EarlyAdd = FALSE
  MCKinds = {"att","pro","agg","con","misc"}
  MaxStores = 100
  MaxQ = 6
